@@ -52,9 +52,12 @@ func H_C15_symbolic() {
 func H_C15_windows() {
 	ci := vChoose(len(corpusC15))
 	if vTier() == 0 {
-		vAssume(ci%4 == vSeed()%4)
+		vAssume(ci%10 == vSeed()%10)
 	}
 	s := corpusC15[ci]
+	if len(s) > 14 && s[:3] == "(((" || len(s) > 14 && s[:5] == "not (" {
+		return // deep nesting: covered concretely
+	}
 	pos := vChoose(len(s) + 1)
 	var in string
 	if vBool() && pos < len(s) {
